@@ -58,6 +58,21 @@ func RunNoStdin(dir string, args ...string) Result {
 func run(dir string, stdin *string, args ...string) Result {
 	ctx, cancel := context.WithTimeout(context.Background(), 60*time.Second)
 	defer cancel()
+	// an older, longer result is in the way of every output file named on the command line: it
+	// must be replaced, not overwritten in place or appended to (files that the caller has put
+	// there itself are left alone)
+	for i := 0; i+1 < len(args); i++ {
+		switch args[i] {
+		case "-o", "--output", "--out", "--out-steps", "--out-states", "--log", "--log-file":
+			name := args[i+1]
+			if name == "" || name == "stdout" || name == "stderr" || name == "none" || name == "-" || strings.ContainsAny(name, "/\\") {
+				continue
+			}
+			if _, err := os.Stat(filepath.Join(dir, name)); err != nil {
+				os.WriteFile(filepath.Join(dir, name), []byte(strings.Repeat("(stale,(content,of),(an,earlier),run)0.5:0.25;\n", 240)), 0o644)
+			}
+		}
+	}
 	cmd := exec.CommandContext(ctx, Bin(), args...)
 	cmd.Dir = dir
 	// the environment of an interactive session: a narrow terminal, a locale with a decimal comma,
